@@ -456,7 +456,7 @@ def main(argv) -> int:
         return replay(pid, argv[argv.index("--replay") + 1])
     if tier not in ("quick", "thorough"):
         tier = "quick"
-    fw.limit_memory()
+    fw.limit_memory(tier)
     return run(pid, tier, seed)
 
 
@@ -465,4 +465,8 @@ if __name__ == "__main__":
         sys.exit(main(sys.argv))
     except subprocess.TimeoutExpired as e:
         print("timeout:", e)
+        sys.exit(2)
+    except MemoryError:
+        # the harness itself (not the code under test inside a slice, which is handled there) ran into the address-space cap
+        print("infrastructure problem: the check ran out of the memory allowed by VERIF_MEM_GB")
         sys.exit(2)
